@@ -12,7 +12,7 @@ CLASSES = ['uniform', 'polar', 'frame', 'antimeridian', 'wide', 'huge', 'hug', '
 RULE = ('points (lon, lat, r), r uniform in 0..29, from seven hostile classes: uniform; polar (colatitude log-uniform 1e-12..1e-1 rad + exact '
         'poles); frame (log-scale neighbourhoods of the 62 dodecahedron frame points, also displaced along seams/edges); antimeridian '
         '(+-180 +- 10^u); wide (lon in [-540,540], -0.0, denormals, ints, +-360/720); huge (|lon| up to 1e15, exactly reduced by fmod); '
-        'hug (points t=1e-9..0.3 inside corners/edges of API-discovered cells); deepsearch (a cheap scan of ~160k points just inside cell corners, one lookup each; the oracle judges those whose lookup went through a run of >= 9 neighbour-search samples without a new candidate, observed through probes on the inner estimate and containment functions); lattice (ordered whole-degree sweeps, ints and floats, back to back); edge / seam (anywhere along the 30 dodecahedron edges / 120 '
+        'hug (points t=1e-9..0.3 inside corners/edges of API-discovered cells); deepsearch (a cheap scan of ~160k points just inside cell corners, one lookup each; the oracle judges those whose lookup went through a run of >= 9 neighbour-search samples without a new candidate, observed through probes on the inner estimate and containment functions); branch (points next to the internal branch boundaries of the projection code, located at run time by bisection on sys.monitoring line signatures); lattice (ordered whole-degree sweeps, ints and floats, back to back); edge / seam (anywhere along the 30 dodecahedron edges / 120 '
         'triangle seams, displaced by 1e-12..1e-1 rad or exactly on them); antimeridian also covers the internal azimuth cuts at lon 87 / -93. Oracle: resolution of the returned id, then sag-aware '
         'adaptive gnomonic point-in-ring on cell_to_boundary (refined to 256 segments on demand); 360-degree periodicity for exactly '
         'representable shifts. distinct = distinct (lon, lat, r); non-trivial = r>=2 and the containment margin was decided (in/out), '
@@ -174,6 +174,14 @@ def run_shard(spec, ctx):
     probe.count_only([('a5.core.cell', 'lonlat_to_cell'), ('a5.core.cell', 'cell_to_boundary')])
     probe.attach('a5.core.cell', '_lonlat_to_estimate', on_call=lambda a, k: _TRACE.append('E') if len(_TRACE) < 200 else None)
     probe.attach('a5.core.cell', 'a5cell_contains_point', on_call=lambda a, k: _TRACE.append('C') if len(_TRACE) < 200 else None)
+    from rv import branch
+    bpts = branch.hostile_points(a5, ctx.rnd, 120, 100, 60)
+    ctx.counters['branch_boundary_points'] = len(bpts)
+    for ll_, where_ in bpts:
+        ctx.setadd('branch_boundaries_located', where_)
+    for i_ in range(min(len(bpts) * 3, 450)):
+        r_ = ctx.rnd.choice((29, 28, 27, 26, 25, ctx.rnd.randint(2, 24), ctx.rnd.randint(2, 24)))
+        eval_point(a5, geo, branch.near(ctx.rnd, bpts[i_ % len(bpts)][0], geo.width(r_)), r_, 'branch', ctx)
     lattice_sweep(a5, geo, ctx)
     deep_search_points(a5, geo, gen, probe, ctx, spec['n'] // 8)
     for n in range(spec['n']):
